@@ -13,7 +13,7 @@ LEVEL_TEXT = ("Grid of idle_timeout / D and idle_timeout / T ratios in {0.1 .. 1
 LEVEL_NOTE = "In-process stack with SQLite persistence; restart = emulated process death (fresh runtime + server over the same file). Trusted: virtual clock, shims."
 DESIGN_REF = "§5 C14"
 RULE = "case = (timer kind, D or T, idle_timeout, restart instant); distinct = hash of the scenario; non-trivial = a release or restart happened while the timer was pending"
-REQUIRED_REACH = ["scenario", "timer_waiter_timeout", "timer_retry_delay", "released_while_timer_pending", "restart_while_timer_pending", "finished"]
+REQUIRED_REACH = ["scenario", "timer_waiter_timeout", "timer_retry_delay", "released_while_timer_pending", "restart_while_timer_pending", "finished", "timer_waiter_chain"]
 ASSUMPTIONS = []
 
 
@@ -27,9 +27,17 @@ def gen_case(seed):
     from vf import idle_cases as ic
 
     rnd = random.Random(seed)
-    kind = rnd.choice(["waiter_timeout", "retry_delay"])
+    kind = rnd.choice(["waiter_timeout", "retry_delay", "waiter_chain"])
     dur = rnd.choice([2.0, 5.0, 10.0])
     ratio = rnd.choice([0.1, 0.25, 0.5, 2.0, 10.0])
+    if kind == "waiter_chain":
+        # two waits in a row with idle_timeout between one and two waiter timeouts: the release timer armed in the first idle
+        # period comes due in the second one, before the second wait's timeout; the run must not be released by it
+        ratio = rnd.choice([1.25, 1.5, 1.75])
+        spec, keys = ic.gen_program(rnd, n=1, waiter_timeout=dur, chain=True)
+        spec["sched_seed"] = seed
+        return {"seed": seed, "kind": kind, "dur": dur, "I": dur * ratio, "spec": spec, "keys": keys, "restart": None, "restart_frac": 0.5,
+                "answer_first": rnd.random() < 0.5}
     if kind == "waiter_timeout":
         spec, keys = ic.gen_program(rnd, n=rnd.randint(1, 2), waiter_timeout=dur)
     else:
@@ -50,6 +58,9 @@ def run_one(case, acc):
     if kind == "retry_delay":
         # the human answers at once; the only pending thing is the delayed retry of the flaky step
         sends = [{"at": 1.5, "pay": {"key": k}} for k in case["keys"]]
+    if kind == "waiter_chain" and case.get("answer_first"):
+        # the first wait is answered (not timed out) a little before its timeout
+        sends = [{"at": 1.0 + dur * 0.75, "pay": {"key": k}} for k in case["keys"]]
     restarts = []
     if case["restart"] == "during":
         t0 = 1.0 if kind == "waiter_timeout" else 0.25
@@ -64,7 +75,7 @@ def run_one(case, acc):
         return
     final = obs["phases"][-1]["h"]
     pending_release = [r for r in obs["releases"] if r.get("reason") == "idle_release" and
-                       (("TickWaiterTimeout" in r.get("wakeups", [])) if kind == "waiter_timeout" else ("TickAddEvent" in r.get("wakeups", [])))]
+                       (("TickWaiterTimeout" in r.get("wakeups", [])) if kind in ("waiter_timeout", "waiter_chain") else ("TickAddEvent" in r.get("wakeups", [])))]
     if pending_release:
         acc.hit("released_while_timer_pending")
     if restarts:
@@ -75,7 +86,7 @@ def run_one(case, acc):
         acc.hit("finished")
     else:
         lost_on = "restart" if restarts else ("idle_release" if pending_release else "none")
-        acc.violation({"mech": "run_stays_running_timer_lost", "timer": kind, "lost_on": lost_on},
+        acc.violation({"mech": "run_stays_running_timer_lost", "timer": kind, "lost_on": lost_on, "idle_timeout_shorter_than_timer": I < dur},
                       f"{kind}={dur}s, idle_timeout={I}s, restarts={restarts}: the timer never took effect; handler after {scn['end']} virtual s is {final}; "
                       f"releases {[(r['t'], r.get('wakeups')) for r in obs['releases']]}", wit)
     acc.sample({"seed": case["seed"], "kind": kind, "dur": dur, "idle_timeout": I, "restarts": restarts, "releases": [r["t"] for r in obs["releases"]], "final": final})
